@@ -148,3 +148,61 @@ proof!(c12_projections, 6, {
     kani::cover!(true, "end reached");
     forget(s1);
 });
+
+// ---------------------------------------------------------------------------
+// C15: one-segment queries over serde_json::Value and over Mini built from the
+// same scalars select corresponding positions.
+macro_rules! c15_process {
+    ($name:ident, |$i:ident| $seg:expr) => {
+        proof!($name, 6, {
+            let (x0, x2): (i64, bool) = (kani::any(), kani::any());
+            let mut sc = Scratch::new();
+            sc.elems[0] = Mini::Int(x0);
+            sc.elems[1] = Mini::Null;
+            sc.elems[2] = Mini::Bool(x2);
+            let dm = sc.arr_c(3);
+            let mut vals: [Value; 3] = [Value::Null, Value::Null, Value::Null];
+            vals[0] = Value::Number(serde_json::Number::from(x0));
+            vals[2] = Value::Bool(x2);
+            let dv = ManuallyDrop::new(Value::Array(cvec(&mut vals, 3)));
+            let $i: i64 = any_ijson();
+            let mut seg1 = $seg;
+            let mut seg2 = $seg;
+            let q1 = ManuallyDrop::new(JpQuery::new(seg_vec(&mut seg1, 1)));
+            let q2 = ManuallyDrop::new(JpQuery::new(seg_vec(&mut seg2, 1)));
+            let rm = js_path_process(&q1, &dm);
+            let rv = js_path_process::<Value>(&q2, &dv);
+            match (&rm, &rv) {
+                (Ok(a), Ok(b)) => {
+                    assert!(a.len() == b.len(), "result sizes differ between Value and another faithful Queryable");
+                    let mut k = 0;
+                    while k < a.len() && k < 3 {
+                        // same position in the two documents
+                        let mut pm = 9;
+                        let mut pv = 8;
+                        let mut j = 0;
+                        while j < 3 {
+                            if core::ptr::eq(a[k].0, &sc.elems[j]) {
+                                pm = j;
+                            }
+                            if core::ptr::eq(b[k].0, &vals[j]) {
+                                pv = j;
+                            }
+                            j += 1;
+                        }
+                        assert!(pm == pv, "results select different positions in Value and in another faithful Queryable");
+                        k += 1;
+                    }
+                }
+                _ => assert!(false, "evaluation must not fail"),
+            }
+            kani::cover!(matches!(&rv, Ok(b) if !b.is_empty()), "something selected");
+            forget(rm);
+            forget(rv);
+            forget(sc);
+            forget(vals);
+        });
+    };
+}
+c15_process!(c15_process_index, |i| m_index(i));
+c15_process!(c15_process_wild, |i| m_wild());
